@@ -56,6 +56,7 @@ func runLegacy(c *vh.Ctx) {
 	c.R.Rule = "(a) one evaluation per (field or extension of a linked message type, Go type given to tag.Unmarshal) and per random token soup: tag.Marshal/tag.Unmarshal vs the Lean model; non-trivial = the tag has at least 4 tokens. (b) one evaluation per (legacy message type, random content, voice) where voice ranges over the six generations of the schema x {wrapped legacy message, dynamicpb of the derived descriptor, struct-tag-only twin (Message only)}; non-trivial = non-empty deterministic encoding; distinct by (type, voice, bytes)."
 	tagCorrespondence(c)
 	tagSoups(c)
+	tagOrder(c)
 	if c.Failed() {
 		return
 	}
@@ -145,7 +146,13 @@ func unmarshalView(c *vh.Ctx, tagStr, gk string, evs protoreflect.EnumValueDescr
 	}
 	// packed (the local variable): observable only through IsPacked; def: through HasDefault/Default
 	defField := mf["def"]
-	if defField != "" && defField != "none" {
+	if modelAns == "" {
+		// no model answer to lean on (implementation-only use): report what the descriptor shows
+		defField = "none"
+		if fd.HasDefault() {
+			defField = "has-default"
+		}
+	} else if defField != "" && defField != "none" {
 		text := string(vh.UnHex(defField))
 		v, ev, err := defval.Unmarshal(text, fd.Kind(), evs, defval.GoTag)
 		wantHas := err == nil && v.IsValid()
@@ -338,6 +345,44 @@ func tagSoups(c *vh.Ctx) {
 			}
 			c.Hist("tag:soup")
 			c.Case("soup|"+s+"|"+gk, k >= 4)
+		}()
+	}
+}
+
+// tagOrder: metamorphic property evaluated on the implementation alone.  The tokens kind / number / label /
+// packed / proto3 / name= / enum= are independent of each other (only json= reads the name parsed before it
+// and def= must be last), so tag.Unmarshal must give the same descriptor for every order of them.
+func tagOrder(c *vh.Ctx) {
+	kinds := []string{"varint", "zigzag32", "zigzag64", "fixed32", "fixed64", "bytes", "group"}
+	labels := []string{"opt", "req", "rep"}
+	n := c.N(3000, 100000)
+	for i := 0; i < n && !c.Failed(); i++ {
+		toks := []string{kinds[c.Rand.Intn(len(kinds))], fmt.Sprint(1 + c.Rand.Intn(5000)), labels[c.Rand.Intn(len(labels))], "name=some_field"}
+		if c.Rand.Intn(2) == 0 {
+			toks = append(toks, "packed")
+		}
+		if c.Rand.Intn(2) == 0 {
+			toks = append(toks, "proto3")
+		}
+		if c.Rand.Intn(4) == 0 {
+			toks = append(toks, "oneof")
+		}
+		gk := goKindNames[c.Rand.Intn(len(goKindNames))]
+		perm := append([]string{}, toks...)
+		c.Rand.Shuffle(len(perm), func(a, b int) { perm[a], perm[b] = perm[b], perm[a] })
+		suffix := ""
+		if c.Rand.Intn(3) == 0 {
+			suffix = ",def=1"
+		}
+		a, b := strings.Join(toks, ",")+suffix, strings.Join(perm, ",")+suffix
+		in := map[string]any{"tag": a, "permuted": b, "gokind": gk}
+		func() {
+			defer c.Recover("tag.Unmarshal(permuted)", in, "")
+			va := unmarshalView(c, a, gk, noEnumValues{}, "", in)
+			vb := unmarshalView(c, b, gk, noEnumValues{}, "", in)
+			c.Check(va == vb, "tag.Unmarshal depends on the order of independent tokens: "+va+" vs "+vb, in, "")
+			c.Hist("tag:order")
+			c.Case("order|"+b+"|"+gk, true)
 		}()
 	}
 }
